@@ -73,6 +73,7 @@ void hk_thread_detach(unsigned long th);
 void hk_thread_exit(void);		/* last TLS destructor round of a thread */
 void hk_fd_created(int fd, const char *what);	/* descriptor created by the library */
 void hk_injected(const char *call, int err);
+void hk_ext_stuck(void);			/* external actors pending, every thread blocked and confirmed: harness may write one off */
 void hk_ext_poll(void);			/* while external actors pending: harness polls side channels */
 void hk_epoll_ctl(int epfd, int op, int fd, struct epoll_event *ev, int ret, int err);
 void hk_inotify_init(int fd);
